@@ -309,6 +309,37 @@ def category_sweep_under_a_unit_system(ctx, db):
         UnitSystemManager.PopSingleton()
 
 
+def value_kinds(ctx, db):
+    """The amount handed over as every kind of number Python and numpy have (a 0-d array, narrow floats, numpy ints and bools,
+    Decimal, Fraction): a kind of number is acceptable to every form or to none, and where it is, the forms build equal objects."""
+    import decimal
+    import fractions
+
+    import numpy as np
+
+    kinds = [("0-d ndarray", np.array(2.5)), ("np.float32", np.float32(2.5)), ("np.float64", np.float64(2.5)), ("np.int64", np.int64(3)), ("bool", True), ("np.bool_", np.bool_(True)), ("Decimal", decimal.Decimal("2.5")),
+             ("Fraction", fractions.Fraction(5, 2)), ("int", 3), ("np.uint8", np.uint8(7)), ("np.float16", np.float16(0.5))]  # fmt: skip
+    for u, c in (("cm", "length"), ("degC", "temperature"), ("psi", "pressure"), ("1000ft3/d", "volume flow rate")):
+        for kname, v in kinds:
+            out = []
+            for name, fn in scalar_forms(u, c, v, True):
+                ctx.ev()
+                try:
+                    out.append((name, "ok", fn()))
+                except Exception as e:
+                    out.append((name, "exc", type(e).__name__))
+            oks, excs = [o for o in out if o[1] == "ok"], [o for o in out if o[1] == "exc"]
+            case = {"unit": u, "category": c, "value kind": kname}
+            ctx.nt(("value kind", u, kname, bool(oks)))
+            if oks and excs:
+                ctx.violation("Scalar:a-kind-of-number-is-accepted-by-some-forms-and-refused-by-others", dict(case, refused_by=[[e[0], e[2]] for e in excs][:4], accepted_by=[o[0] for o in oks][:3]), replay=None)
+            for name, _ok, o in oks[1:]:
+                why = same(oks[0][2], o)
+                if why:
+                    ctx.violation("Scalar:forms-differ:%s<>%s" % (oks[0][0], name), dict(case, a=repr(oks[0][2])[:120], b=repr(o)[:120], why=why), replay=None)
+    ctx.count("kinds of number handed to every Scalar form", len(kinds) * 4)
+
+
 def registered_later(ctx):
     """The forms on a database built by hand, in the orders a program may register things: units first, then questions
     about them (which find no category yet - unit-only forms fail, as they must), then the categories; or categories
@@ -405,8 +436,16 @@ def registered_later(ctx):
             if order == "a category registered again":
                 for u in ("m", "cm", "s", "min"):
                     Scalar(1.0, u)
+                # (the bare-category forms were used before as well; one re-registration changes nothing but the default value)
+                from barril.units import FixedArray as _Fa, FractionScalar as _Fs2
+
+                for c_ in ("length", "time", "duration"):
+                    Scalar(c_), _Fs2(c_), _Fa(2, c_), Scalar(c_, unit=db.GetDefaultUnit(c_))
+                db.AddCategory("time", "time", override=True, default_value=5.0)
+                category_sweep(ctx, db, only={"time"}, tag=" (after the category was registered again with another default value)")
                 db.AddCategory("length", "length", override=True, default_unit="cm")
                 db.AddCategory("duration", "time", override=True)
+                category_sweep(ctx, db, only={"length", "time", "duration", "dynamic viscosity"}, tag=" (after the category was registered again)")
             for u, c in pairs:
                 for v in (1.0, -2.5):
                     case = {"database": "hand-built", "order": order, "unit": u, "category": c, "value": v}
@@ -477,6 +516,8 @@ def run(ctx):
         unit_sweep(ctx, db, ctx.rng("c19"))
         category_sweep(ctx, db)
         category_sweep_under_a_unit_system(ctx, db)
+        if ctx.shard == 0:
+            value_kinds(ctx, db)
         if ctx.shard == 0:
             ctx.sample({"unit": "cP", "default category": db.GetDefaultCategory("cP"), "forms": [n for n, _ in scalar_forms("cP", "x", 1.0, True)]})
     if ctx.shard == 0:
